@@ -100,7 +100,9 @@ def render_module(p: Dict[str, Any], i: int) -> str:
         if k == "from":
             src = "." * op["lvl"] + ".".join(op["m"])
             stmt = f"from {src} import {op['orig']}" + (f" as {op['as']}" if op["as"] != op["orig"] else "")
-            if op.get("try"):
+            if op.get("tc"):          # an import for the type checker only: not executed, but analysed by pydoctor
+                lines.append(f"{sp}from typing import TYPE_CHECKING\n{sp}if TYPE_CHECKING:\n{sp}    {stmt}")
+            elif op.get("try"):
                 lines.append(f"{sp}try:\n{sp}    {stmt}\n{sp}except ImportError:\n{sp}    pass")
             else:
                 lines.append(f"{sp}{stmt}")
